@@ -36,7 +36,12 @@ monitors! {
     "C04" => c04,
     "C05" => c05,
     "C08" => c08,
+    "C10" => c10,
     "C12" => c12,
+    "C13" => c13,
+    "C14" => c14,
+    "C15" => c15,
+    "C16" => c16,
     "C17" => c17,
 }
 
